@@ -47,7 +47,8 @@ Inductive wop :=
 | WNew (x : Z) (k : vkind) (nm : option name)    (* x = h.Signal(name=nm) / h.Port(..) / Leaf(..) / ... *)
 | WSet (ci : cid) (n : name) (x : Z)             (* setattr(container ci, n, x) *)
 | WAdd (ci : cid) (x : Z) (on : option name)     (* container ci .add(x, name=on) *)
-| WVis (x : Z) (port : bool)                     (* x.vis = Visibility.PORT / INTERNAL *)
+| WVis (x : Z) (port : bool)                     (* x.vis = Visibility.PORT / INTERNAL  (the direction stays) *)
+| WDir (x : Z) (d : pdir)                        (* x.direction = PortDir.NONE / INPUT / OUTPUT / INOUT  (the visibility stays) *)
 | WName (x : Z) (on : option name)               (* x.name = on *)
 | WDel (ci : cid) (n : name)                     (* delattr(container ci, n) *)
 | WElab (ci : cid).                              (* h.elaborate(container ci) *)
@@ -104,7 +105,12 @@ Section Generic.
         match w_heap w x with Some ob => store w ci (Add (snap x ob) on) x ob | None => None end
     | WVis x p =>
         match w_heap w x with
-        | Some (Ob (KSignal _) nm pm pb) => Some (W (w_st w) (hupd (w_heap w) x (Ob (KSignal p) nm pm pb)))
+        | Some (Ob (KSignal _ d) nm pm pb) => Some (W (w_st w) (hupd (w_heap w) x (Ob (KSignal p d) nm pm pb)))
+        | _ => None
+        end
+    | WDir x d =>
+        match w_heap w x with
+        | Some (Ob (KSignal p _) nm pm pb) => Some (W (w_st w) (hupd (w_heap w) x (Ob (KSignal p d) nm pm pb)))
         | _ => None
         end
     | WName x on =>
@@ -145,9 +151,12 @@ Definition opt_name_eqb (a : option name) (b : name) : bool :=
 Definition opt_z_eqb (a : option Z) (b : Z) : bool :=
   match a with Some x => x =? b | None => false end.
 
+Definition dir_eqb (a b : pdir) : bool :=
+  match a, b with DNone, DNone | DInput, DInput | DOutput, DOutput | DInout, DInout => true | _, _ => false end.
+
 Definition kind_eqb (a b : vkind) : bool :=
   match a, b with
-  | KSignal p, KSignal q => Bool.eqb p q
+  | KSignal p d, KSignal q e => Bool.eqb p q && dir_eqb d e
   | KInstance, KInstance | KInstArray, KInstArray | KInstBundle, KInstBundle
   | KBundleInst, KBundleInst | KStr, KStr | KOther, KOther => true
   | _, _ => false
@@ -155,7 +164,7 @@ Definition kind_eqb (a b : vkind) : bool :=
 
 (* same Python class (a Signal stays a Signal whatever its visibility) *)
 Definition same_class (a b : vkind) : bool :=
-  match a, b with KSignal _, KSignal _ => true | _, _ => kind_eqb a b end.
+  match a, b with KSignal _ _, KSignal _ _ => true | _, _ => kind_eqb a b end.
 
 Definition in_syncb (h : heap) (ci : cid) (n : name) (v : value) : bool :=
   match h (v_id v) with
@@ -166,7 +175,7 @@ Definition in_syncb (h : heap) (ci : cid) (n : name) (v : value) : bool :=
 (* the object an operation mutates or hands to a container *)
 Definition touches (o : wop) (x : Z) : bool :=
   match o with
-  | WNew y _ _ | WSet _ _ y | WAdd _ y _ | WVis y _ | WName y _ => y =? x
+  | WNew y _ _ | WSet _ _ y | WAdd _ y _ | WVis y _ | WDir y _ | WName y _ => y =? x
   | WDel _ _ | WElab _ => false
   end.
 
